@@ -237,6 +237,7 @@ func checkC09(r *Run) {
 		msg  ssa.Value
 		call *ssa.Call
 		body *ssa.BasicBlock
+		fn   *ssa.Function // the function holding the clause: Handle, or the helper the clause delegates to
 	}
 	clauses := map[string]*clause{} // keyed by Session method name
 	eachInstr(h, func(in ssa.Instruction) {
@@ -256,11 +257,28 @@ func checkC09(r *Run) {
 		if body == nil || msg == nil {
 			return
 		}
+		direct := false
 		eachInstr(h, func(in2 ssa.Instruction) {
 			if c, ok := in2.(*ssa.Call); ok && c.Call.IsInvoke() && isP9P(c.Call.Value.Type(), "Session") && (body == c.Block() || body.Dominates(c.Block())) {
-				clauses[c.Call.Method.Name()] = &clause{msg, c, body}
+				clauses[c.Call.Method.Name()] = &clause{msg, c, body, h}
+				direct = true
 			}
 		})
+		if direct {
+			return
+		}
+		// the clause delegates to a helper (`return sess.handleRead(ctx, msg)`): the helper's body is the clause and
+		// its parameter bound to the asserted message is the request
+		if g, deleg := delegatedClause(p, h, body, ""); g != nil {
+			for i, a := range deleg.Call.Args {
+				if stripConv(a) == msg && i < len(g.Params) {
+					for _, c := range findCallsInvoke(g, "", "Session") {
+						r.SawFn(fnName(g))
+						clauses[c.Call.Method.Name()] = &clause{g.Params[i], c, g.Blocks[0], g}
+					}
+				}
+			}
+		}
 	})
 
 	nMethods := 0
@@ -387,7 +405,7 @@ func checkC09(r *Run) {
 		// server R literal on the success edge
 		var rlit map[string]ssa.Value
 		var srvRet *ssa.Return
-		for _, ret := range returnsOf(h) {
+		for _, ret := range returnsOf(cl.fn) {
 			if (cl.body == ret.Block() || cl.body.Dominates(ret.Block())) && len(ret.Results) == 2 && isNilConst(ret.Results[1]) {
 				if f2, n2, ok := compositeFields(ret.Results[0]); ok && n2 != nil {
 					rlit, srvRet = f2, ret
@@ -443,6 +461,10 @@ func checkC09(r *Run) {
 					okEdge = true
 				}
 			}
+			// `return ackResult(ok)`: a helper that yields nil only when the assertion succeeded
+			if !okEdge && len(ret.Results) > 0 && okGatedError(p, ret.Results[len(ret.Results)-1], []ssa.Value{resultN(ta, 1)}) {
+				okEdge = true
+			}
 			if !okEdge {
 				continue
 			}
@@ -481,7 +503,10 @@ func checkC09(r *Run) {
 		r.Check(ok, "buffered-reply", f+" always created with capacity >= 1", pos, why)
 	}
 	// Tread clamp in the dispatcher: the buffer length never exceeds msize-11 when positive and is never negative (bounds rule)
-	n := dischargeBounds(r, h, "bounds", nil)
+	n := 0
+	for _, f := range p.withHelpers(h, 1) {
+		n += dischargeBounds(r, f, "bounds", nil)
+	}
 	r.Floor("bounds", n, 2, "obligations in the dispatcher")
 	// "callers issuing calls concurrently each obtain their own results": the tag multiplexing on both sides — the
 	// client's rules (tags free and distinct, registered before the write, reply routed to the request found under
